@@ -119,7 +119,7 @@ def bits(a):
     return np.ascontiguousarray(a).tobytes()
 
 
-def observables(sim, v):
+def observables(sim, v, own=None):
     """Run forward, misfit, gradient, jvec; return (phase -> slot -> bytes)."""
     out = {}
     sim.compute()
@@ -131,6 +131,8 @@ def observables(sim, v):
     out['gradient'] = {'all': bits(g)}
     out['bfield'] = {(s, f): bits(sim._dict_get('bfield', s, f).field)
                      for s, f in sim._srcfreq}
+    if own is not None:
+        own(sim)
     jv = np.array(sim.jvec(v))
     out['jvec'] = {'all': bits(jv)}
     # a second forward run on the same object (what an inversion loop does
@@ -224,7 +226,59 @@ def run_config(rec, seed, k, i, tier):
     # ---- sequential in-memory reference (no log, no delays)
     SCHED.update(log=None, lock=None, delays=None)
     simr, _ = make({'max_workers': 1, 'file': False}, None)
-    ref = observables(simr, v)
+
+    def own(sim):
+        # Every slot of the sequential run holds the result of its *own*
+        # task: the stored forward / back-propagated field solves the system
+        # of that source (residual source) at that frequency.  (Comparing
+        # the other runs with this one says nothing about a slot mix-up that
+        # all execution modes share.)
+        if gridding != 'same':
+            return
+        tg = tolg or 1e-7
+        for s_, f_ in sim._srcfreq:
+            fq = float(sim.survey.frequencies[f_])
+            op = gen.build_refop(ps['gs'], ps['ms'], fq)
+            for what, rhs, tl in (
+                    ('efield', emg3d.fields.get_source_field(
+                        sim.model.grid, sim.survey.sources[s_], fq), 1e-7),
+                    ('bfield', sim._get_rfield(s_, f_), tg)):
+                info = sim._dict_get(what + '_info', s_, f_)
+                if info is None or info['exit'] != 0:
+                    continue          # reported as not converged
+                e_ = np.array(sim._dict_get(what, s_, f_).field)
+                sv_ = np.array(rhs.field)
+                nrm = float(np.linalg.norm(sv_[op.interior]))
+                if nrm == 0:
+                    continue
+                q = float(np.linalg.norm((sv_ - op.A @ e_)[op.interior]))/nrm
+                rec.event('slot_ownership_checks')
+                rec.margin('slot_residual_over_tol', q/tl)
+                if not (q <= 50*tl):
+                    rec.violation(
+                        'C11:slot-holds-foreign-result',
+                        f'sequential run: {what}[{s_}, {f_}] does not solve '
+                        f'the system of its own source and frequency '
+                        f'(relative residual {q:.3e}, tolerance {tl:.0e})',
+                        base)
+                    return
+
+    try:
+        ref = observables(simr, v, own)
+    except Exception as e:  # noqa
+        import traceback
+        tb = traceback.extract_tb(e.__traceback__)
+        if tb and os.sep + 'emg3d' + os.sep in tb[-1].filename and \
+                os.sep + 'vf' + os.sep not in tb[-1].filename:
+            # the sequential in-memory run of a valid survey raises inside
+            # emg3d: no result at all, for any schedule
+            rec.case()
+            rec.violation(f'C11:sequential-run-raises-{type(e).__name__}',
+                          f'{type(e).__name__}: {e} in '
+                          f'{tb[-1].filename.split(os.sep)[-1]}:{tb[-1].lineno}'
+                          f' ({tb[-1].name}); gridding={gridding}', base)
+            return
+        raise
     rec.case()
     # tasks must be distinguishable (unique-value trick)
     if len(set(ref['efield'].values())) != ntask:
